@@ -426,6 +426,20 @@ impl ZchState {
                 if self.zchd.zchd_is_altgr_active && !a.zch_output.is_empty() {
                     kb.release_key(OsCode::KEY_RIGHTALT)?;
                 }
+                if common_prefix_len_from_past_activation > 0
+                    && !self.zchd.zchd_is_caps_word_active
+                    && a.zch_output.len() > common_prefix_len_from_past_activation as usize
+                {
+                    // The first character of the expansion is already on screen (reused prefix):
+                    // a held shift must not capitalize the first character typed now.
+                    released_sft = true;
+                    if self.zchd.zchd_is_lsft_active {
+                        kb.release_key(OsCode::KEY_LEFTSHIFT)?;
+                    }
+                    if self.zchd.zchd_is_rsft_active {
+                        kb.release_key(OsCode::KEY_RIGHTSHIFT)?;
+                    }
+                }
                 for key_to_send in a
                     .zch_output
                     .iter()
